@@ -55,6 +55,11 @@ func c01Witnesses() []c01Witness {
 			Doc: wDoc(J{"/a": J{"get": wOp("getA", J{"responses": J{"200": J{"description": "d", "content": J{"application/json": J{"schema": objWith(J{"owner": J{"type": "object", "properties": J{"n": J{"type": "string"}}, "additionalProperties": J{"type": "integer"}}})}}}}})}}, nil)},
 		{Name: "two-unsupported-request-media-types-strict", FW: "chi", Strict: true,
 			Doc: wDoc(J{"/a": J{"post": wOp("postA", J{"requestBody": J{"content": J{"application/octet-stream": J{"schema": J{"type": "string", "format": "binary"}}, "application/xml": J{"schema": J{"type": "string"}}}}})}}, nil)},
+		{Name: "two-multipart-request-media-types", FW: "chi",
+			Doc: wDoc(J{"/a": J{"post": wOp("postA", J{"requestBody": J{"content": J{"multipart/form-data": J{"schema": objWith(J{"a": J{"type": "string"}})}, "multipart/related": J{"schema": J{"type": "string", "format": "binary"}}}}})}}, nil)},
+		{Name: "two-members-referring-to-a-renamed-schema",
+			Doc: wDoc(J{}, J{"schemas": J{"Z": J{"type": "object", "x-go-name": "ZRenamed", "properties": J{"a": J{"type": "string"}}},
+				"H": J{"type": "object", "properties": J{"first": J{"$ref": "#/components/schemas/Z"}, "second": J{"$ref": "#/components/schemas/Z"}}}}})},
 		{Name: "nullable-additional-properties-value",
 			Doc: wDoc(J{}, J{"schemas": J{"A": J{"type": "object", "properties": J{"n": J{"type": "string"}}, "additionalProperties": J{"type": "integer", "nullable": true}}}})},
 		{Name: "schema-named-like-params-type", FW: "chi",
